@@ -1221,7 +1221,7 @@ impl Property for C14 {
         let literal_names = crng.chance(1, 3);
         crate::sgen::sysgen::set_name_stress(literal_names, false);
         let sys = if use_pdr {
-            gen_bounded_system(&mut rng, 7, 3, true, 8, |c| c.quoted_names = c.quoted_names || literal_names)
+            gen_bounded_system(&mut rng, 6, 3, true, 8, |c| c.quoted_names = c.quoted_names || literal_names)
         } else {
             gen_system(&mut rng, 7, 3, false, |c| c.quoted_names = c.quoted_names || literal_names)
         };
